@@ -198,27 +198,27 @@ func (r *Report) finish(evidencePath string) int {
 		"property_id": r.Prop, "tier": r.Tier, "seed": r.Seed, "level": "proof", "wall_s": round3(r.wall), "violations": nviol,
 		"coverage": map[string]interface{}{
 			"obligations": r.obligations, "discharged": r.discharged,
-			"checker_cmd":              fmt.Sprintf("bin/govc check --property %s --tier %s", r.Prop, r.Tier),
-			"trusted_base":             trusted,
-			"samples":                  samples,
-			"functions_under_contract": shortKeys(r.funcs),
-			"obligations_by_kind":      r.byKind,
-			"discharged_by_backend":    r.bySolver,
-			"solver_seconds":           roundMap(r.solverSecs),
-			"slowest_obligation_s":     round3(r.maxSecs),
-			"load_and_ssa_s":           round3(r.loadSecs),
-			"cover_queries":            r.covers,
+			"checker_cmd":                  fmt.Sprintf("bin/govc check --property %s --tier %s", r.Prop, r.Tier),
+			"trusted_base":                 trusted,
+			"samples":                      samples,
+			"functions_under_contract":     shortKeys(r.funcs),
+			"obligations_by_kind":          r.byKind,
+			"discharged_by_backend":        r.bySolver,
+			"solver_seconds":               roundMap(r.solverSecs),
+			"slowest_obligation_s":         round3(r.maxSecs),
+			"load_and_ssa_s":               round3(r.loadSecs),
+			"cover_queries":                r.covers,
 			"contracts_used_at_call_sites": countList(r.usedContracts),
-			"inlined_functions":        countList(r.inlined),
-			"unspecified_calls":        countList(r.unspec),
-			"out_of_reach_or_malformed": r.problems,
-			"known_findings_confirmed": r.knownConfirmed,
-			"single_solver":            r.singleSolver,
-			"determinism_only_functions": r.detOnly,
-			"encoder_notes":            r.encNotes,
-			"notes":                    r.notes,
-			"not_decided":              notDecided(r.cfg),
-			"explanation":              "Every obligation is a weakest-precondition VC generated from the go/ssa form of /repo's working tree for the listed functions under contract; a caller sees only the contract of a callee that has one.",
+			"inlined_functions":            countList(r.inlined),
+			"unspecified_calls":            countList(r.unspec),
+			"out_of_reach_or_malformed":    r.problems,
+			"known_findings_confirmed":     r.knownConfirmed,
+			"single_solver":                r.singleSolver,
+			"determinism_only_functions":   r.detOnly,
+			"encoder_notes":                r.encNotes,
+			"notes":                        r.notes,
+			"not_decided":                  notDecided(r.cfg),
+			"explanation":                  "Every obligation is a weakest-precondition VC generated from the go/ssa form of /repo's working tree for the listed functions under contract; a caller sees only the contract of a callee that has one.",
 		},
 		"assumptions": assumptions,
 	}
